@@ -5,21 +5,6 @@ From HailV Require Import Common.Prelude CSE.Model CSE.Basics CSE.EvalLemmas CSE
 (** the same identity always labels the same subtree (true by construction for a Python object graph) *)
 Definition consistent (R : node) : Prop := forall Y Z, subterm Y R -> subterm Z R -> nid Y = nid Z -> Y = Z.
 
-(** input well-formedness: program variables only (no [__cse_] names), references are leaves *)
-Definition head_vars (h : head) : list var :=
-  match h with
-  | HLet x | HRef x | HStreamMap x | HStreamFilter x => [x]
-  | HStreamFold a x => [a; x]
-  | _ => []
-  end.
-Definition is_uvar (v : var) : bool := match v with U _ => true | C _ => false end.
-
-Fixpoint wf_node (t : node) : bool :=
-  match t with
-  | Node _ _ h cs =>
-    forallb is_uvar (head_vars h) && (if is_ref h then is_nil cs else true) && forallb wf_node cs
-  end.
-
 Lemma is_uvar_uvar v : is_uvar v = true -> uvar v.
 Proof. destruct v; cbn; [tauto | discriminate]. Qed.
 
